@@ -1,7 +1,8 @@
 ---------------------------- MODULE HydroFlowTrace ----------------------------
 (* Trace validation of runs of the REAL generated Dfir (hv_embedded, bin `hydroflow`)
    against the reference layer.  The trace (ndjson, env TRACE) has one line per run:
-     {"e":"run","case":id,"prog":name,"ticks":[{"in1":[..],..},..],"outs":[[..],..],"panic":0|1}
+     {"e":"run","case":id,"prog":name,"ticks":[{"in1":[..],..},..],"outs":[[..],..],"panic":0|1
+      [,"pred":[[..],..]]}
      {"e":"eof"}
    Property-level rule breaks (HydroFlow!Broken, or a panic) are collected in `viol`;
    differences from the implementation-shaped prediction (HydroLowering!Run, tick by tick)
@@ -31,11 +32,14 @@ RunBroken(P, e) ==
     ELSE IF Len(e.outs) # Len(e.ticks) THEN {"harness"}
     ELSE IF P.level = "prop" THEN Broken(P, e.ticks, e.outs) ELSE {}
 
-\* tick-by-tick comparison with the lowered program (bags, or sequences where order is promised)
+\* tick-by-tick comparison with the lowered program (bags, or sequences where order is promised);
+\* runs of TLC-generated schedules carry the prediction HydroFlowImpl computed for them (pred),
+\* for the others it is computed here
+DiffersFrom(P, e, pred) ==
+    \E t \in 1..Len(e.ticks) : ~SameAs(IF P.kind = "seq" THEN "seq" ELSE "bag", e.outs[t], pred[t])
 RunDrift(P, e) ==
     IF e.panic = 1 \/ Len(e.outs) # Len(e.ticks) THEN FALSE
-    ELSE LET pred == Run(P, e.ticks)
-         IN \E t \in 1..Len(e.ticks) : ~SameAs(IF P.kind = "seq" THEN "seq" ELSE "bag", e.outs[t], pred[t])
+    ELSE DiffersFrom(P, e, IF "pred" \in DOMAIN e THEN e.pred ELSE Run(P, e.ticks))
 
 TRun == /\ Ev.e = "run"
         /\ LET P == ProgOf(Ev.prog)
